@@ -143,6 +143,9 @@ func (m *Machine) deepEq(x, y value, seen map[[2]*value]bool, depth int) value {
 
 // rtypeMethod implements the few reflect.Type methods used by the code under test.
 func (m *Machine) rtypeMethod(name string, rt rtype, args []value) value {
+	if v, ok := m.rtypeMethodX(name, rt, args); ok {
+		return v
+	}
 	switch name {
 	case "String":
 		return rt.t.String()
